@@ -862,6 +862,7 @@ def run(ctx):
                 'random: 1-D (2-6 cells, p 1-4, interior multiplicities 1..p, non-uniform breakpoints), 2-D (2-3 cells per axis, p 1-3), '
                 '3-D (2x2x2, p 1-2), disparity 1/2/3/inf, 1-6 calls mixing refine (truncate on/off, 1-3 levels per call), refine_region predicates and '
                 'empty marks; containers set/frozenset/list/tuple with duplicates, shuffled, missing vs explicit-empty keys. '
+                'deep chains: disparity 2/3, 1-D p 1-2 (one with a double knot) and 2-D 2x2 p 1, 2d+1..2d+3 successive calls marking 1-2 cells of the deepest level (+ sometimes one of the level below); '
                 'One request per history (every prefix state is reported by the driver), plus a `vsup` request (the five cell_* properties of the final space) for every random and every 6th exhaustive history. non-trivial = final space has >=2 levels and a deactivated function; '
                 'distinct by request line')
     cache = {}
@@ -950,6 +951,46 @@ def run(ctx):
             harness_exception(cfg, ex)
     stream.flush()
     nexh = stream.nreq
+
+    # ---- deep chains: finite disparity d in {2,3}, 2d+2..2d+3 successive calls each marking one or two cells of the
+    # deepest level (sometimes also one of the level below), so that _mark_recursive has to recurse over >= 2
+    # disparity steps in every run; every intermediate state goes through the diff and the admissibility oracle
+    deep_cfgs = []
+    for d in (2, 3):
+        deep_cfgs += [([(1, 'uniform', 4 if d == 2 else 2)], d), ([(2, 'uniform', 3 if d == 2 else 2)], d),
+                      ([(2, [2], [0.0, 1.0, 2.0])], d)]
+    deep_cfgs.append(([(1, 'uniform', 2), (1, 'uniform', 2)], 2))
+    nchain = 5 if quick else 40
+    for di, (kvs, d) in enumerate(deep_cfgs):
+        for rep in range(nchain if len(kvs) == 1 else max(2, nchain // 2)):
+            cfg = {'kvs': kvs, 'disp': d, 'truncate': bool(rng.integers(0, 2)), 'kind': 'deep%dd' % len(kvs), 'optrunc': False}
+            try:
+                header = cfg_header(cfg)
+                hs = make_space(cfg)
+                steps = [fmt_step(hs, '-', cache)]
+                ops = []
+                ncalls = 2 * d + 2 + (int(rng.integers(0, 2)) if (d == 2 and len(kvs) == 1) else 0)
+                if len(kvs) == 2:
+                    ncalls = 2 * d + 1
+                for _k in range(ncalls):
+                    top = max(l for l in range(hs.numlevels) if hs.active_cells(l))
+                    cells = sorted(hs.active_cells(top))
+                    k = 1 + int(rng.integers(0, 2))
+                    by = {top: [cells[i] for i in rng.permutation(len(cells))[:k]]}
+                    if top >= 1 and hs.active_cells(top - 1) and rng.integers(0, 5) < 2:
+                        below = sorted(hs.active_cells(top - 1))
+                        by[top - 1] = [below[int(rng.integers(0, len(below)))]]
+                    op = mk_refine_op(rng, by, False, extra_empty=False)
+                    hs, step = run_op(hs, op, cache)
+                    ops.append(op)
+                    steps.append(step)
+                    oracle_once(cfg, list(ops), hs, d, ('d', di, rep, _k))
+                finish_history(cfg, header, ops, steps, hs, 'deep')
+            except InfraError:
+                raise
+            except Exception as ex:
+                harness_exception(cfg, ex)
+    stream.flush()
 
     # ---- random stream
     nrand = 150 if quick else 2000
